@@ -362,6 +362,11 @@ fn specs(thorough: bool) -> Vec<Spec> {
 }
 
 pub fn run(cli: Cli) -> ! {
+    run_with(cli, &|_| {})
+}
+
+/// `extra` adds to the same report (netsim hosts this check and adds whole connections through the assembled router)
+pub fn run_with(cli: Cli, extra: &dyn Fn(&Report)) -> ! {
     let rep = Report::new("C03", cli.tier, "model_checking");
     if let Some(case) = cli.replay.clone().filter(|c| c.get("lookups").is_none()) {
         let s: Spec = serde_json::from_value(case["spec"].clone()).unwrap_or_else(|e| common::machinery(&format!("bad replay: {e}")));
@@ -461,5 +466,6 @@ pub fn run(cli: Cli) -> ! {
     rep.sample(json!({"spec": Spec { disc: "v4".into(), filter: "identity".into(), strat: "none".into(), locale: "de_AT".into(), table: "en+de+de_at".into(), lat: [0, 0, 0], ka_stall: None, cookie_target: None }, "expect": "Disconnect with the 'de' message (de_AT -> de)"}));
     rep.assume("locale keys are compared as exact strings (the statement does not define case folding); when no table exists for the whole chain only 'exactly one Disconnect, no Transfer' is judged");
     rep.assume("Transfer host is compared as an IP address, not as text");
+    extra(&rep);
     rep.finish()
 }
